@@ -4,6 +4,7 @@ CONSTANTS
  NSlots = 3  MaxStreams = 70  MaxRecs = 4700
  USizes <- TinyU  VSizes <- TinyV  Pads <- TinyP  FlagSet <- TinyF
  CommonU <- SmallU  CommonV <- SmallV
+ FamStreams <- NoValues  FamBase = 3  FamGroups <- NoValues
  Volume = TRUE
  MinSteps = 7  MaxSteps = 7
 CONSTRAINT Emit
